@@ -308,25 +308,34 @@ class Measurements:
         bitstring_frequencies = self.get_counts()
         num_measurements = len(self.bitstrings)
 
+        # Coefficients given as numpy integers would silently wrap around (int64) in
+        # the products of two coefficients below; Python integers do not.
+        coefficients = [
+            int(term.coefficient)
+            if isinstance(term.coefficient, np.integer)
+            else term.coefficient
+            for term in ising_operator.terms
+        ]
+
         # Perform weighted average
         expectation_values_list = [
-            term.coefficient
+            coefficient
             * get_expectation_value_from_frequencies(term.qubits, bitstring_frequencies)
-            for term in ising_operator.terms
+            for coefficient, term in zip(coefficients, ising_operator.terms)
         ]
         expectation_values = np.array(expectation_values_list)
 
         correlations = np.zeros((len(ising_operator.terms),) * 2, dtype=complex)
         for i, first_term in enumerate(ising_operator.terms):
-            correlations[i, i] = first_term.coefficient**2
+            correlations[i, i] = coefficients[i] ** 2
             for j in range(i):
                 second_term = ising_operator.terms[j]
                 marked_qubits = first_term.qubits.symmetric_difference(
                     second_term.qubits
                 )
                 correlations[i, j] = (
-                    first_term.coefficient
-                    * second_term.coefficient
+                    coefficients[i]
+                    * coefficients[j]
                     * get_expectation_value_from_frequencies(
                         marked_qubits, bitstring_frequencies
                     )
